@@ -116,7 +116,11 @@ class _JumpSelector(object):
     def select(self, timeout=None):
         loop = self._loop_ref[0]
         if timeout is not None and timeout <= 0:
+            loop._v_busy += 1
+            if loop._v_busy > 200000:      # the loop never goes idle: report instead of hanging
+                raise RuntimeError('virtual loop did not become idle')
             return self._inner.select(0)
+        loop._v_busy = 0
         # the loop is idle: no ready callbacks; `timeout` is the distance to the next scheduled handle
         target = loop._v_target
         nxt = None if timeout is None else loop._v_now + timeout
@@ -146,6 +150,7 @@ class VirtualLoop(asyncio.SelectorEventLoop):
         self._v_target = None
         self._v_idle = False
         self.on_tick = None
+        self._v_busy = 0
         self._clock_resolution = 0.25     # integer times: a handle is due iff when <= now
 
     def time(self):
